@@ -642,7 +642,7 @@ fn scratch_dir() -> PathBuf {
 fn check(tier: &str) -> i32 {
     let n_maps = ((match tier {
         "quick" => 160.0,
-        _ => 30_000.0,
+        _ => 8_000.0,
     }) * scale())
     .max(1.0) as u64;
     let known_all = load_known();
